@@ -41,11 +41,19 @@ def strategy(tier):
             a["frames"] = draw(st.integers(2, 8))
             a["tile_cols"] = draw(st.integers(0, 2))
             a["tile_rows"] = draw(st.integers(0, 2))
+            if draw(st.booleans()):
+                a["aq"] = draw(st.integers(1, 3))          # segmentation with per-segment quantisers: per-thread derived tables must follow it
+                a["end_usage"], a["cq"] = 3, draw(st.sampled_from([20, 35, 50]))
             src = dict(src="aom", aom=a)
         else:
             c, n, tp = draw(gens.cfg(max_dim=320, min_dim=130, frames=(2, 10), allow_twopass=False, slow_p=0, lps=(4,), recon=0, presets=(8, 8, 7, 6, 5)))
             c["tile_rows"] = draw(st.integers(0, 2))
             c["tile_columns"] = draw(st.integers(0, 2))
+            if draw(st.integers(0, 3)) == 0:
+                # segmentation-based AQ (only without tiles: with tiles libaom rejects the stream, a listed C01 finding)
+                c["enable_adaptive_quantization"] = 1
+                c["tile_rows"] = c["tile_columns"] = 0
+                c.pop("rate_control_mode", None)
             src = dict(src="svt", enc=gens.case_from(c, n, tp, draw(gens.content())))
         runs = []
         for _ in range(draw(st.integers(2, 3))):
